@@ -592,7 +592,13 @@ class Gen:
                     break
 
 
+import threading
+_GEN_LOCK = threading.Lock()
+
+
 def generate(unit_name, repo, outdir):
-    g = Gen(unit_name, repo, outdir)
-    g.generate()
+    # rule state (vec receivers) is module-global: extraction runs one unit at a time
+    with _GEN_LOCK:
+        g = Gen(unit_name, repo, outdir)
+        g.generate()
     return g
